@@ -76,6 +76,7 @@ type Spec struct {
 	RestartDelay  time.Duration
 	InboxSize     int
 	NMiddleware   int
+	MWSplit       int // >0: the chain is given as two WithMiddleware options, split at this index
 	PanicInit     map[int]bool // incarnation index -> panic while handling Initialized
 	PanicStarted  map[int]bool
 	PanicStopped  map[int]bool
@@ -180,6 +181,7 @@ type Env struct {
 	Monitors []*Monitor
 	Watches  []*Watch
 	overlaps int
+	relayN   map[string]int
 }
 
 func NewEnv(rc *core.RunCtx) *Env {
@@ -276,7 +278,12 @@ func (env *Env) opts(spec *Spec) []actor.OptFunc {
 		for i := 0; i < spec.NMiddleware; i++ {
 			mws = append(mws, env.middleware(spec.FullID(), i))
 		}
-		o = append(o, actor.WithMiddleware(mws...))
+		// the chain may be configured by one WithMiddleware option or by several
+		if k := spec.MWSplit; k > 0 && k < len(mws) {
+			o = append(o, actor.WithMiddleware(mws[:k]...), actor.WithMiddleware(mws[k:]...))
+		} else {
+			o = append(o, actor.WithMiddleware(mws...))
+		}
 	}
 	return o
 }
@@ -403,7 +410,14 @@ func (s *scripted) obey(c *actor.Context, m *UMsg) {
 		c.SpawnChild(env.producer(m.Spec, in.ID), childName(in.ID, m.Spec), env.opts(m.Spec)...)
 		env.ev("spawnchild-ret", in.ID, m.Spec.FullID(), nil, nil)
 	case cSend:
-		env.ev("send", in.ID, m.Name, m.Sub, nil)
+		// successive sends from one actor: numbered in the order the relay handles them
+		m.Sub.Src = in.ID + "=>"
+		if env.relayN == nil {
+			env.relayN = map[string]int{}
+		}
+		m.Sub.N = env.relayN[in.ID+"=>"+m.Name]
+		env.relayN[in.ID+"=>"+m.Name]++
+		env.ev("send", in.ID, m.Name, m.Sub, c.PID())
 		c.Send(actor.NewPID("local", m.Name), m.Sub)
 		env.ev("send-ret", in.ID, m.Name, m.Sub, nil)
 	case cForward:
